@@ -166,6 +166,43 @@ def gen_prune(fn):
             "    end.\n")
 
 
+def gen_set_data(sm):
+    """MosaikRemote.set_data and _assert_async_requests: the three nested loops are checked; one write (source entity, destination
+    simulator, attribute, value) is emitted"""
+    c = [n for n in sm.body if isinstance(n, ast.ClassDef) and n.name == 'MosaikRemote']
+    if len(c) != 1: raise Unsupported('class MosaikRemote not found')
+    def meth(name):
+        f = [n for n in c[0].body if isinstance(n, (ast.FunctionDef, ast.AsyncFunctionDef)) and n.name == name]
+        if len(f) != 1: raise Unsupported(f'MosaikRemote.{name} not found')
+        return f[0]
+    a = meth('_assert_async_requests')
+    if [x.arg for x in a.args.args] != ['self', 'src_sim', 'dest_sim']: bail(a, 'signature')
+    tests = []
+    for st in strip_doc(a.body):
+        if not (isinstance(st, ast.If) and not st.orelse and len(st.body) == 1 and isinstance(st.body[0], ast.Raise) and isinstance(st.body[0].exc, ast.Call)
+                and ast.unparse(st.body[0].exc.func) == 'ScenarioError'): bail(st, 'assertion')
+        t = ast.unparse(st.test)
+        if t == 'dest_sim not in src_sim.successors': tests.append('negb (existsb (Nat.eqb dest_sim) successors)')
+        elif t == 'dest_sim not in src_sim.successors_to_wait_for': tests.append('negb (existsb (Nat.eqb dest_sim) successors_to_wait_for)')
+        else: bail(st, 'condition ' + t)
+    if not tests: bail(a, 'no test')
+    f = meth('set_data')
+    if [x.arg for x in f.args.args] != ['self', 'data']: bail(f, 'signature')
+    body = strip_doc(f.body)
+    want = ("for src_full_id, dest in data.items():\n    for full_id, attributes in dest.items():\n        sid, eid = full_id.split(FULL_ID_SEP, 1)\n"
+            "        src_sim = self.world.sims[sid]\n        self._assert_async_requests(src_sim, self.sim)\n"
+            "        inputs = src_sim.inputs_from_set_data.setdefault(eid, {})\n        for attr, val in attributes.items():\n"
+            "            inputs.setdefault(attr, {})[src_full_id] = val")
+    if len(body) != 1 or ast.unparse(body[0]) != want: bail(f, 'set_data differs from the text the translator knows')
+    return ("(* MosaikRemote._assert_async_requests (true = a ScenarioError is raised) and one write of MosaikRemote.set_data: the caller\n"
+            "   self.sim writes val into attribute attr of the simulator whose async-requests tables are given, under the key src_full_id *)\n"
+            "Definition async_requests_refused (successors successors_to_wait_for : list nat) (dest_sim : nat) : bool :=\n  "
+            + " || ".join(tests) + ".\n"
+            "Definition set_data_write (successors successors_to_wait_for : list nat) (inputs_from_set_data : idata) (caller src_full_id : nat) (attr : attr) (val : Z) : option idata :=\n"
+            "  if async_requests_refused successors successors_to_wait_for caller then None\n"
+            "  else Some (iset attr src_full_id (Some val) inputs_from_set_data).\n")
+
+
 def main():
     repo, outdir = sys.argv[1], sys.argv[2]
     tree = ast.parse(open(os.path.join(repo, 'mosaik', 'scheduler.py')).read())
@@ -218,7 +255,8 @@ def main():
                       "    : idata * idata * list bufentry * idata :=",
                       "  " + "\n  ".join(out) + ".", "",
                       gen_put_outputs([n for n in tree.body if isinstance(n, ast.AsyncFunctionDef) and n.name == 'get_outputs'][0]),
-                      gen_prune([n for n in tree.body if isinstance(n, ast.FunctionDef) and n.name == 'prune_dataflow_cache'][0])])
+                      gen_prune([n for n in tree.body if isinstance(n, ast.FunctionDef) and n.name == 'prune_dataflow_cache'][0]),
+                      gen_set_data(sm)])
     path = os.path.join(outdir, 'InputData.v')
     if not os.path.exists(path) or open(path).read() != text:
         open(path, 'w').write(text)
